@@ -9,6 +9,7 @@ FORMULAS = {
     'C04': ['HostSurvives', 'LossReported', 'LossSparesOthers', 'IdleLossHarmless', 'RecycleHarmless'],
     'C05': ['HostSurvives', 'HardLimit', 'MapNeverTimedOut'],
     'C06': ['HostSurvives', 'SoftOnceInTask'],
+    'C08': ['HostSurvives', 'SignalledRunsCallback', 'TerminateStopsRefill'],
     'C09': ['HostSurvives', 'RecycleHarmless', 'LossSparesOthers', 'IdleLossHarmless', 'DiscardNoHoldUp'],
     'C10': ['HostSurvives', 'SendFailSlot'],
     'C11': ['HostSurvives', 'BudgetAckResets', 'BudgetStops'],
@@ -44,6 +45,9 @@ def scenarios(pid, thorough):
         S.append(dict(kind='sendfail'))
     if pid == 'C10':
         S.append(dict(kind='sendfail'))
+    if pid == 'C08':
+        S += [dict(kind='signal_one', target='busy'), dict(kind='signal_one', target='idle'),
+              dict(kind='term_repop')]
     if pid == 'C11':
         for maxr in ((1, 2, 3) if thorough else (2,)):
             S.append(dict(kind='budget', variant='ack', maxr=maxr))
